@@ -8,6 +8,8 @@ on its public tables (function.GKLS_minima: local_min, rho, f, peak) and on valu
   paraboloid   at every probe point lying outside all balls the value equals ||x-T||^2 + f_0 (1e-9 relative; the
                bitwise agreement with the re-computation is counted in stats)
   basin_floor  inside ball i no value is below f_i (M_i really is the minimiser of its basin)
+  continuity   (axis scans: along every coordinate axis through the centres of the 4 largest balls the largest step between 33 samples is
+               bisected to ~1e-14 and must shrink below 1e-6)
   continuity   across every sphere (radius rho(1 -/+ 1e-9), same direction): jump < 1e-6; near the centres
                (5e-11 .. 1e-6 away, inside/outside the PRECISION guard): |f - f_i| < 1e-6; random pairs of points
                1e-9 apart (box and basin interiors): jump < 1e-6
@@ -208,6 +210,45 @@ def check_instance(n, k, iseed, nbox, ndir):
                 v("continuity", probe="centre", ball=i, delta=delta, point=oc.jl(y), value=val, f_i=float(f[i]))
             if val < float(f[i]) - 1e-12:
                 v("basin_floor", point=oc.jl(y), value=val, ball=i, f_i=float(f[i]), probe="centre")
+
+    # ---- axis scans through the large basins ----------------------------------------------------------------------
+    # along every coordinate axis through the centre of each of the (up to 4) largest balls, centre -> sphere: the largest step between
+    # successive samples is bisected down to ~1e-14; a jump that does not shrink is a discontinuity INSIDE the basin (a shortcut that
+    # tests one coordinate against the radius shows up exactly on such lines)
+    info["axis_lines"] = 0
+    big = sorted(range(1, 10), key=lambda i_: -float(rho[i_]))[:4]
+    for i in big:
+        c, rh = [float(t) for t in M[i]], float(rho[i])
+        if rh < 0.3:
+            continue
+        for ax in range(n):
+            for sg in (1.0, -1.0):
+                steps = 32
+                pts = []
+                for q in range(steps + 1):
+                    y = list(c)
+                    y[ax] = c[ax] + sg * rh * (1 - 1e-9) * q / steps
+                    if not _inbox(y):
+                        break
+                    pts.append(y)
+                if len(pts) < 3:
+                    continue
+                info["axis_lines"] += 1
+                vals = [ev(y) for y in pts]
+                q = max(range(len(pts) - 1), key=lambda q_: abs(vals[q_ + 1] - vals[q_]))
+                a_, b_, fa, fb = pts[q], pts[q + 1], vals[q], vals[q + 1]
+                for _ in range(46):
+                    m_ = [(u1 + u2) / 2 for u1, u2 in zip(a_, b_)]
+                    if m_ == a_ or m_ == b_:
+                        break
+                    fm = ev(m_)
+                    if abs(fm - fa) >= abs(fb - fm):
+                        b_, fb = m_, fm
+                    else:
+                        a_, fa = m_, fm
+                if not abs(fa - fb) < JUMP:
+                    v("continuity", probe="axis-scan", ball=i, axis=ax, x=oc.jl(a_), y=oc.jl(b_), f_x=fa, f_y=fb, jump=abs(fa - fb),
+                      distance=_dist(a_, b_))
 
     # ---- golden reference -------------------------------------------------------------------------------------
     gold = oc.load_gkls_golden().get(f"{n},{k}")
